@@ -389,28 +389,159 @@ Theorem compile_items_spec X items :
 Proof. rewrite compile_items_gen. reflexivity. Qed.
 
 (* ------------------------------------------------------------------------------------ *)
-(* one link                                                                              *)
+(* state invariants                                                                      *)
 (* ------------------------------------------------------------------------------------ *)
+Lemma set_mvar_wf st x : wf_state st -> wf_state (set_mvar st x).
+Proof. intros H i. specialize (H i). destruct i; exact H. Qed.
+Lemma set_mvarname_wf st x : wf_state st -> wf_state (set_mvarname st x).
+Proof. intros H i. specialize (H i). destruct i; exact H. Qed.
+Lemma set_mvars_wf st m : wf_state st -> wf_map m -> wf_state (set_mvars st m).
+Proof. intros H Hm i. specialize (H i). destruct i; try exact H. exact Hm. Qed.
+
+Lemma match_variable_wf st m : wf_state st -> wf_state (match_variable st m).
+Proof.
+  intro H. unfold match_variable. apply set_mvarname_wf, set_mvar_wf, set_mvars_wf; [exact H|].
+  apply map_add_wf. exact (H MMvars).
+Qed.
+
+Lemma fold_match_wf ms : forall st, wf_state st -> wf_state (fold_left match_variable ms st).
+Proof. induction ms as [|m r IH]; cbn; intros st H; [assumption|]. apply IH, match_variable_wf, H. Qed.
+
+Lemma apply_setvar_wf st kv : wf_state st -> wf_state (apply_setvar st kv).
+Proof.
+  intros H i. unfold apply_setvar. pose proof (H MTx) as Htx. specialize (H i).
+  destruct i; try exact H. cbn. apply map_set1_wf. exact Htx.
+Qed.
+
+Lemma fold_setvar_wf svs : forall st, wf_state st -> wf_state (fold_left apply_setvar svs st).
+Proof. induction svs as [|kv r IH]; cbn; intros st H; [assumption|]. apply IH, apply_setvar_wf, H. Qed.
+
+Lemma build1_wf q : wf_state (build1 q).
+Proof.
+  intro i. destruct i; unfold build1; cbn [get_map s_get s_post s_path s_hdr s_cookie s_tx s_mvars];
+    try apply map_of_list_wf; apply wf_map_nil.
+Qed.
+
+Lemma set_post_wf st m : wf_state st -> wf_map m -> wf_state (set_post st m).
+Proof. intros H Hm i. specialize (H i). destruct i; try exact H. exact Hm. Qed.
+
 Lemma sub_ok ord i : ok_oracle ord -> ok_oracle (sub ord i).
 Proof. intros H p m. apply H. Qed.
 
-Lemma eval_targets_spec X ord st l neg o : wf_state st -> ok_oracle ord ->
-  forall ts i,
-  Permutation (eval_targets X ord st l neg o i (map (compile_target X) ts))
-              (flat_map (fun t => flat_map (satisfying X l neg o) (spec_selects X st t)) ts).
+Lemma eval_targets_wf X ord l neg o cs : forall st i, wf_state st -> wf_state (snd (eval_targets X ord st l neg o i cs)).
 Proof.
-  intros Hwf Hord. induction ts as [|t r IH]; intro i; cbn; [constructor|].
-  apply Permutation_app; [|apply IH].
-  apply Permutation_flat_map, get_field_spec; [assumption | apply sub_ok, Hord].
+  induction cs as [|c r IH]; intros st i H; cbn [eval_targets snd]; [assumption|].
+  apply IH, fold_match_wf, H.
 Qed.
 
-(* the match data of a link is exactly the satisfying (variable, key, transformed value) triples *)
-Theorem link_matches_spec X ord st l : wf_state st -> ok_oracle ord ->
-  Permutation (link_matches X ord st l) (spec_link_matches X st l).
+Lemma link_post_wf X ord st l : wf_state st -> wf_state (link_post X ord st l).
 Proof.
-  intros Hwf Hord. unfold link_matches, spec_link_matches. destruct (l_kind l) as [svs|neg o].
+  intro H. unfold link_post, link_eval. destruct (l_kind l); cbn [snd].
+  - apply fold_setvar_wf, match_variable_wf, H.
+  - apply eval_targets_wf, H.
+Qed.
+
+(* ------------------------------------------------------------------------------------ *)
+(* one link                                                                              *)
+(* ------------------------------------------------------------------------------------ *)
+Lemma target_matches_spec X ord st l neg o t : wf_state st -> ok_oracle ord ->
+  Permutation (target_matches X ord st l neg o (compile_target X t))
+              (flat_map (satisfying X l neg o) (spec_selects X st t)).
+Proof. intros Hwf Hord. unfold target_matches. apply Permutation_flat_map, get_field_spec; assumption. Qed.
+
+Lemma eval_targets_spec X ord l neg o : ok_oracle ord -> forall ts st i, wf_state st ->
+  Permutation (fst (eval_targets X ord st l neg o i (map (compile_target X) ts)))
+              (spec_targets X ord st l neg o i ts).
+Proof.
+  intro Hord. induction ts as [|t r IH]; intros st i Hwf; cbn [map eval_targets spec_targets fst]; [constructor|].
+  apply Permutation_app.
+  - apply target_matches_spec; [assumption | apply sub_ok, Hord].
+  - apply IH. apply fold_match_wf, Hwf.
+Qed.
+
+(* the match data of a link is exactly the satisfying (variable, key, transformed value) triples,
+   every target read in the state the earlier targets of the link left *)
+Theorem link_matches_spec_t X ord st l : wf_state st -> ok_oracle ord ->
+  Permutation (link_matches X ord st l) (spec_link_matches_t X ord st l).
+Proof.
+  intros Hwf Hord. unfold link_matches, link_eval, spec_link_matches_t. destruct (l_kind l) as [svs|neg o].
   - apply Permutation_refl.
   - rewrite compile_items_spec. apply eval_targets_spec; assumption.
+Qed.
+
+Lemma link_matches_nonempty X ord st l : wf_state st -> ok_oracle ord ->
+  is_nil (link_matches X ord st l) = false <-> link_holds_t X ord st l.
+Proof.
+  intros Hwf Hord. pose proof (link_matches_spec_t X ord st l Hwf Hord) as HP.
+  unfold link_holds_t. destruct (l_kind l) as [svs|neg o] eqn:Ek.
+  - split; [auto|]. intros _. unfold link_matches, link_eval. rewrite Ek. reflexivity.
+  - split.
+    + intro H. destruct (link_matches X ord st l) as [|m ms] eqn:E; [discriminate|].
+      exists m. eapply Permutation_in; [exact HP | left; reflexivity].
+    + intros [md Hin]. destruct (link_matches X ord st l) eqn:E; [|reflexivity].
+      apply Permutation_sym in HP. eapply Permutation_in in Hin; [|exact HP]. destruct Hin.
+Qed.
+
+(* ---- links that read none of the MATCHED_* variables: the declarative reading ---- *)
+Definition same_but_mvar (st st' : state) : Prop :=
+  forall v, matched_family v = false -> spec_entries st' v = spec_entries st v.
+
+Lemma same_refl st : same_but_mvar st st.
+Proof. intros v _. reflexivity. Qed.
+Lemma same_trans a b c : same_but_mvar a b -> same_but_mvar b c -> same_but_mvar a c.
+Proof. intros H1 H2 v Hv. rewrite H2, H1; auto. Qed.
+
+Lemma match_variable_same st m : same_but_mvar st (match_variable st m).
+Proof. intros v Hv. destruct v; try reflexivity; discriminate. Qed.
+
+Lemma fold_match_same ms : forall st, same_but_mvar st (fold_left match_variable ms st).
+Proof.
+  induction ms as [|m r IH]; cbn; intro st; [apply same_refl|].
+  eapply same_trans; [apply match_variable_same | apply IH].
+Qed.
+
+Lemma eval_targets_same X ord l neg o cs : forall st i, same_but_mvar st (snd (eval_targets X ord st l neg o i cs)).
+Proof.
+  induction cs as [|c r IH]; intros st i; cbn [eval_targets snd]; [apply same_refl|].
+  eapply same_trans; [apply fold_match_same | apply IH].
+Qed.
+
+Lemma reads_mvar_false l t : reads_mvar l = false -> In t (targets_of_items (l_items l)) -> matched_family (rt_var t) = false.
+Proof.
+  unfold reads_mvar. intros H Ht. destruct (matched_family (rt_var t)) eqn:E; [|reflexivity].
+  assert (existsb (fun t => matched_family (rt_var t)) (targets_of_items (l_items l)) = true).
+  { apply existsb_exists. exists t; split; assumption. }
+  congruence.
+Qed.
+
+Lemma spec_selects_same X st st' t : same_but_mvar st st' -> matched_family (rt_var t) = false ->
+  spec_selects X st' t = spec_selects X st t.
+Proof.
+  intros Hs Hv. unfold spec_selects, spec_selected. rewrite (Hs _ Hv). reflexivity.
+Qed.
+
+Lemma spec_targets_decl X ord l neg o : forall ts st st' i, same_but_mvar st st' ->
+  Forall (fun t => matched_family (rt_var t) = false) ts ->
+  spec_targets X ord st' l neg o i ts = flat_map (fun t => flat_map (satisfying X l neg o) (spec_selects X st t)) ts.
+Proof.
+  induction ts as [|t r IH]; intros st st' i Hs HF; cbn [spec_targets flat_map]; [reflexivity|].
+  inversion HF as [|? ? Ht HFr]; subst. rewrite (spec_selects_same X st st' t Hs Ht). f_equal.
+  apply IH; [|assumption]. eapply same_trans; [exact Hs|]. unfold target_post. apply fold_match_same.
+Qed.
+
+(* for such a link the exact match data is the order-free, state-free one *)
+Theorem spec_link_matches_decl X ord st st' l : same_but_mvar st st' -> reads_mvar l = false ->
+  spec_link_matches_t X ord st' l = spec_link_matches X st l.
+Proof.
+  intros Hs Hr. unfold spec_link_matches_t, spec_link_matches. destruct (l_kind l) as [svs|neg o]; [reflexivity|].
+  apply spec_targets_decl; [exact Hs|]. rewrite Forall_forall. intros t Ht. eapply reads_mvar_false; eassumption.
+Qed.
+
+Theorem link_matches_spec X ord st l : wf_state st -> ok_oracle ord -> reads_mvar l = false ->
+  Permutation (link_matches X ord st l) (spec_link_matches X st l).
+Proof.
+  intros Hwf Hord Hr. rewrite <- (spec_link_matches_decl X ord st st l (same_refl st) Hr).
+  apply link_matches_spec_t; assumption.
 Qed.
 
 Lemma spec_link_nonempty X st l : spec_link_matches X st l <> [] <-> link_holds X st l.
@@ -430,56 +561,41 @@ Proof.
       rewrite E in Hin. contradiction.
 Qed.
 
-Lemma link_matches_nonempty X ord st l : wf_state st -> ok_oracle ord ->
-  is_nil (link_matches X ord st l) = false <-> link_holds X st l.
+Lemma link_holds_decl X ord st st' l : same_but_mvar st st' -> reads_mvar l = false ->
+  (link_holds_t X ord st' l <-> link_holds X st l).
 Proof.
-  intros Hwf Hord. rewrite <- spec_link_nonempty.
-  pose proof (link_matches_spec X ord st l Hwf Hord) as HP. split.
-  - intros H E. rewrite E in HP. apply Permutation_sym, Permutation_nil in HP. rewrite HP in H. discriminate.
-  - intro H. destruct (link_matches X ord st l) eqn:E; [|reflexivity].
-    apply Permutation_nil in HP. contradiction.
+  intros Hs Hr. rewrite <- spec_link_nonempty. unfold link_holds_t.
+  rewrite (spec_link_matches_decl X ord st st' l Hs Hr).
+  unfold spec_link_matches. destruct (l_kind l) as [svs|neg o]; [split; [discriminate | auto]|].
+  split.
+  - intros [md Hin] E. rewrite E in Hin. destruct Hin.
+  - intro H. destruct (flat_map _ _) as [|m ms]; [contradiction|]. exists m. left; reflexivity.
 Qed.
 
-(* ------------------------------------------------------------------------------------ *)
-(* state invariants                                                                      *)
-(* ------------------------------------------------------------------------------------ *)
-Lemma set_mvar_wf st x : wf_state st -> wf_state (set_mvar st x).
-Proof. intros H i. specialize (H i). destruct i; exact H. Qed.
-
-Lemma apply_setvar_wf st kv : wf_state st -> wf_state (apply_setvar st kv).
+Lemma link_post_same X ord st l : is_action l = false -> same_but_mvar st (link_post X ord st l).
 Proof.
-  intros H i. unfold apply_setvar. pose proof (H MTx) as Htx. specialize (H i).
-  destruct i; try exact H. cbn. apply map_set1_wf. exact Htx.
+  unfold is_action, link_post, link_eval. destruct (l_kind l); [discriminate|]. intros _. apply eval_targets_same.
 Qed.
-
-Lemma fold_setvar_wf svs : forall st, wf_state st -> wf_state (fold_left apply_setvar svs st).
-Proof. induction svs as [|kv r IH]; cbn; intros st H; [assumption|]. apply IH, apply_setvar_wf, H. Qed.
-
-Lemma link_post_wf X ord st l : wf_state st -> wf_state (link_post X ord st l).
-Proof.
-  intro H. unfold link_post. destruct (l_kind l).
-  - apply fold_setvar_wf, set_mvar_wf, H.
-  - destruct (rev _); [assumption | apply set_mvar_wf, H].
-Qed.
-
-Lemma build1_wf q : wf_state (build1 q).
-Proof.
-  intro i. destruct i; unfold build1; cbn [get_map s_get s_post s_path s_hdr s_cookie s_tx];
-    try apply map_of_list_wf; apply wf_map_nil.
-Qed.
-
-Lemma set_post_wf st m : wf_state st -> wf_map m -> wf_state (set_post st m).
-Proof. intros H Hm i. specialize (H i). destruct i; try exact H. exact Hm. Qed.
 
 (* ------------------------------------------------------------------------------------ *)
 (* chains                                                                                *)
 (* ------------------------------------------------------------------------------------ *)
+Lemma eval_chain_cons X ord st lvl l r :
+  eval_chain X ord st lvl (l :: r) =
+  if is_nil (link_matches X (sub ord lvl) st l) then (None, link_post X (sub ord lvl) st l)
+  else match eval_chain X ord (link_post X (sub ord lvl) st l) (S lvl) r with
+       | (Some rest, st'') => (Some (tag lvl (link_matches X (sub ord lvl) st l) ++ rest), st'')
+       | (None, st'') => (None, st'')
+       end.
+Proof. reflexivity. Qed.
+
 Theorem chain_fires_iff X ord ls : ok_oracle ord -> forall st lvl, wf_state st ->
   (fst (eval_chain X ord st lvl ls) <> None <-> chain_holds X ord st lvl ls).
 Proof.
-  intro Hord. induction ls as [|l r IH]; intros st lvl Hwf; cbn [eval_chain chain_holds].
+  intro Hord. induction ls as [|l r IH]; intros st lvl Hwf.
   - cbn. split; [auto | discriminate].
-  - pose proof (link_matches_nonempty X (sub ord lvl) st l Hwf (sub_ok ord lvl Hord)) as Hl.
+  - rewrite eval_chain_cons. cbn [chain_holds].
+    pose proof (link_matches_nonempty X (sub ord lvl) st l Hwf (sub_ok ord lvl Hord)) as Hl.
     specialize (IH (link_post X (sub ord lvl) st l) (S lvl) (link_post_wf X (sub ord lvl) st l Hwf)).
     destruct (is_nil (link_matches X (sub ord lvl) st l)) eqn:E.
     + cbn. split; [intro H; contradiction|]. intros [H _]. apply Hl in H. discriminate.
@@ -492,69 +608,22 @@ Theorem chain_matchdata_exact X ord ls : ok_oracle ord -> forall st lvl mds st',
   eval_chain X ord st lvl ls = (Some mds, st') ->
   Permutation mds (spec_chain_data X ord st lvl ls).
 Proof.
-  intro Hord. induction ls as [|l r IH]; intros st lvl mds st' Hwf; cbn [eval_chain spec_chain_data].
-  - intro H; inversion H; subst. constructor.
-  - destruct (is_nil (link_matches X (sub ord lvl) st l)); [discriminate|].
+  intro Hord. induction ls as [|l r IH]; intros st lvl mds st' Hwf.
+  - cbn. intro H; inversion H; subst. constructor.
+  - rewrite eval_chain_cons. cbn [spec_chain_data].
+    destruct (is_nil (link_matches X (sub ord lvl) st l)); [discriminate|].
     destruct (eval_chain X ord (link_post X (sub ord lvl) st l) (S lvl) r) as [[rest|] st''] eqn:Er; [|discriminate].
     intro H; inversion H; subst. apply Permutation_app.
-    + unfold tag. apply Permutation_map, link_matches_spec; [assumption | apply sub_ok, Hord].
+    + unfold tag. apply Permutation_map, link_matches_spec_t; [assumption | apply sub_ok, Hord].
     + eapply IH; [apply link_post_wf, Hwf | exact Er].
 Qed.
 
 Lemma eval_chain_wf X ord ls : forall st lvl, wf_state st -> wf_state (snd (eval_chain X ord st lvl ls)).
 Proof.
-  induction ls as [|l r IH]; intros st lvl Hwf; cbn [eval_chain]; [assumption|].
+  induction ls as [|l r IH]; intros st lvl Hwf; [exact Hwf|]. rewrite eval_chain_cons.
   destruct (is_nil _); [cbn; apply link_post_wf, Hwf|].
   specialize (IH (link_post X (sub ord lvl) st l) (S lvl) (link_post_wf X (sub ord lvl) st l Hwf)).
   destruct (eval_chain X ord (link_post X (sub ord lvl) st l) (S lvl) r) as [[rest|] st'']; exact IH.
-Qed.
-
-(* ---- chains whose links do not read MATCHED_VAR: a fully declarative reading ---- *)
-Definition same_but_mvar (st st' : state) : Prop :=
-  forall v, v <> VMatchedVar -> spec_entries st' v = spec_entries st v.
-
-Lemma set_mvar_same st x : same_but_mvar st (set_mvar st x).
-Proof. intros v Hv. destruct v; try reflexivity. contradiction. Qed.
-
-Lemma same_trans a b c : same_but_mvar a b -> same_but_mvar b c -> same_but_mvar a c.
-Proof. intros H1 H2 v Hv. rewrite H2, H1; auto. Qed.
-
-Lemma negs_for_irrelevant : True. Proof. exact I. Qed.
-
-Lemma targets_vars items t : In t (targets_of_items items) -> In (rt_var t) (map item_var items).
-Proof.
-  induction items as [|it r IH]; cbn; [auto|]. destruct it as [c v s|v s]; cbn.
-  - intros [<-|H]; [left; reflexivity | right; auto].
-  - intro H. right; auto.
-Qed.
-
-Lemma reads_mvar_false l t : reads_mvar l = false -> In t (targets_of_items (l_items l)) -> rt_var t <> VMatchedVar.
-Proof.
-  unfold reads_mvar. intros H Ht Hv. apply targets_vars in Ht. apply in_map_iff in Ht as [it [Hit Hin]].
-  assert (existsb (fun i => var_eqb (item_var i) VMatchedVar) (l_items l) = true).
-  { apply existsb_exists. exists it; split; [assumption|]. apply var_eqb_eq. congruence. }
-  congruence.
-Qed.
-
-Lemma spec_selects_same X st st' t : same_but_mvar st st' -> rt_var t <> VMatchedVar ->
-  spec_selects X st' t = spec_selects X st t.
-Proof.
-  intros Hs Hv. unfold spec_selects, spec_selected. rewrite (Hs _ Hv). reflexivity.
-Qed.
-
-Lemma link_holds_same X st st' l : same_but_mvar st st' -> reads_mvar l = false ->
-  (link_holds X st' l <-> link_holds X st l).
-Proof.
-  intros Hs Hr. unfold link_holds. destruct (l_kind l) as [svs|neg o]; [tauto|].
-  split; intros [t [md [cv [Ht [Hmd H]]]]]; exists t, md, cv; (split; [assumption|]); (split; [|assumption]).
-  - rewrite <- (spec_selects_same X st st' t Hs (reads_mvar_false l t Hr Ht)). assumption.
-  - rewrite (spec_selects_same X st st' t Hs (reads_mvar_false l t Hr Ht)). assumption.
-Qed.
-
-Lemma link_post_same X ord st l : is_action l = false -> same_but_mvar st (link_post X ord st l).
-Proof.
-  unfold is_action, link_post. destruct (l_kind l); [discriminate|]. intros _.
-  destruct (rev _); [intros v _; reflexivity | apply set_mvar_same].
 Qed.
 
 Theorem chain_holds_declarative X ord ls : forall st st' lvl,
@@ -565,7 +634,7 @@ Proof.
   induction ls as [|l r IH]; intros st st' lvl Hs HF; cbn [chain_holds].
   - split; auto.
   - inversion HF as [|? ? [Hr Ha] HFr]; subst.
-    rewrite (link_holds_same X st st' l Hs Hr).
+    rewrite (link_holds_decl X (sub ord lvl) st st' l Hs Hr).
     rewrite (IH st (link_post X (sub ord lvl) st' l) (S lvl)); [|eapply same_trans; [exact Hs | apply link_post_same, Ha] | assumption].
     split; [intros [H1 H2]; constructor; assumption | intro H; inversion H; auto].
 Qed.
@@ -585,7 +654,7 @@ Theorem rule_fires_declarative X ord st r : wf_state st -> ok_oracle ord ->
   (rule_fires X ord st r = true <-> Forall (link_holds X st) (rule_links r)).
 Proof.
   intros Hwf Hord HF. rewrite rule_fires_iff by assumption.
-  apply chain_holds_declarative; [intros v _; reflexivity | assumption].
+  apply chain_holds_declarative; [apply same_refl | assumption].
 Qed.
 
 Theorem rule_matchdata_exact X ord st r mds st' : wf_state st -> ok_oracle ord ->
@@ -604,7 +673,7 @@ Theorem phase_order X ord ph rules : forall st i,
 Proof.
   induction rules as [|r rest IH]; intros st i; cbn [eval_rules filter]; [constructor|].
   destruct (in_phase ph r); [|apply IH].
-  destruct (eval_rule X (sub ord i) st r) as [res st'].
+  destruct (eval_rule X (sub ord i) (set_mvars st []) r) as [res st'].
   specialize (IH st' (S i)). destruct (eval_rules X ord st' ph (S i) rest) as [out st''].
   cbn [fst map] in *. destruct res as [mds|]; [destruct (r_id r =? 0)|]; cbn [map fst]; constructor; exact IH.
 Qed.
@@ -615,18 +684,21 @@ Theorem phase_exact X ord ph rules : forall st i,
 Proof.
   induction rules as [|r rest IH]; intros st i; cbn [eval_rules spec_fired]; [reflexivity|].
   destruct (in_phase ph r); cbn [andb]; [|apply IH].
-  unfold rule_fires. destruct (eval_rule X (sub ord i) st r) as [res st']. cbn [fst snd].
+  unfold rule_fires. destruct (eval_rule X (sub ord i) (set_mvars st []) r) as [res st']. cbn [fst snd].
   specialize (IH st' (S i)). destruct (eval_rules X ord st' ph (S i) rest) as [out st''].
   cbn [fst] in *. destruct res as [mds|]; cbn [andb]; [|exact IH].
   destruct (r_id r =? 0); cbn [negb map fst app]; [exact IH | f_equal; exact IH].
 Qed.
 
+Lemma reset_wf st : wf_state st -> wf_state (set_mvars st []).
+Proof. intro H. apply set_mvars_wf; [exact H | apply wf_map_nil]. Qed.
+
 Lemma eval_rules_wf X ord ph rules : forall st i, wf_state st -> wf_state (snd (eval_rules X ord st ph i rules)).
 Proof.
   induction rules as [|r rest IH]; intros st i Hwf; cbn [eval_rules]; [assumption|].
   destruct (in_phase ph r); [|apply IH, Hwf].
-  pose proof (eval_chain_wf X (sub ord i) (rule_links r) st 0%nat Hwf) as Hw. unfold eval_rule.
-  destruct (eval_chain X (sub ord i) st 0 (rule_links r)) as [res st']. cbn in Hw.
+  pose proof (eval_chain_wf X (sub ord i) (rule_links r) (set_mvars st []) 0%nat (reset_wf st Hwf)) as Hw. unfold eval_rule.
+  destruct (eval_chain X (sub ord i) (set_mvars st []) 0 (rule_links r)) as [res st']. cbn in Hw.
   specialize (IH st' (S i) Hw). destruct (eval_rules X ord st' ph (S i) rest) as [out st'']. exact IH.
 Qed.
 
@@ -640,10 +712,11 @@ Theorem fired_sound X ord ph rules : ok_oracle ord -> forall st i id mds, wf_sta
 Proof.
   intro Hord. induction rules as [|r rest IH]; intros st i id mds Hwf; cbn [eval_rules]; [intros []|].
   destruct (in_phase ph r) eqn:Hph.
-  - pose proof (eval_chain_wf X (sub ord i) (rule_links r) st 0%nat Hwf) as Hw.
-    pose proof (chain_fires_iff X (sub ord i) (rule_links r) (sub_ok ord i Hord) st 0%nat Hwf) as Hf.
-    pose proof (chain_matchdata_exact X (sub ord i) (rule_links r) (sub_ok ord i Hord) st 0%nat) as Hm.
-    unfold eval_rule. destruct (eval_chain X (sub ord i) st 0 (rule_links r)) as [res st'] eqn:Er. cbn [fst snd] in Hw, Hf.
+  - pose proof (reset_wf st Hwf) as Hwf0.
+    pose proof (eval_chain_wf X (sub ord i) (rule_links r) (set_mvars st []) 0%nat Hwf0) as Hw.
+    pose proof (chain_fires_iff X (sub ord i) (rule_links r) (sub_ok ord i Hord) (set_mvars st []) 0%nat Hwf0) as Hf.
+    pose proof (chain_matchdata_exact X (sub ord i) (rule_links r) (sub_ok ord i Hord) (set_mvars st []) 0%nat) as Hm.
+    unfold eval_rule. destruct (eval_chain X (sub ord i) (set_mvars st []) 0 (rule_links r)) as [res st'] eqn:Er. cbn [fst snd] in Hw, Hf.
     specialize (IH st' (S i) id mds Hw). destruct (eval_rules X ord st' ph (S i) rest) as [out st''].
     cbn [fst] in *. intro Hin.
     assert (Hrest : In (id, mds) out -> exists r0 j st0, In r0 (r :: rest) /\ r_id r0 = id /\ id <> 0 /\ in_phase ph r0 = true
@@ -652,8 +725,8 @@ Proof.
     { intro H. destruct (IH H) as [r0 [j [st0 [H1 H2]]]]. exists r0, j, st0. split; [right; assumption | assumption]. }
     destruct res as [m|]; [|auto]. destruct (r_id r =? 0) eqn:Eid; [auto|].
     destruct Hin as [Heq|Hin]; [|auto]. inversion Heq; subst. clear Hrest IH.
-    exists r, i, st. split; [left; reflexivity|]. split; [reflexivity|]. split; [apply N.eqb_neq, Eid|].
-    split; [exact Hph|]. split; [exact Hwf|]. split; [apply Hf; discriminate | eapply Hm; [exact Hwf | reflexivity]].
+    exists r, i, (set_mvars st []). split; [left; reflexivity|]. split; [reflexivity|]. split; [apply N.eqb_neq, Eid|].
+    split; [exact Hph|]. split; [exact Hwf0|]. split; [apply Hf; discriminate | eapply Hm; [exact Hwf0 | reflexivity]].
   - intro Hin. destruct (IH st (S i) id mds Hwf Hin) as [r0 [j [st0 [H1 H2]]]].
     exists r0, j, st0. split; [right; assumption | assumption].
 Qed.
@@ -737,3 +810,12 @@ Example regex_key_escape_repaired :
   /\ get_field csem ord_id (build1 q_hdr_xid) (compile_target csem (mk_rtarget false VReqHeaders SelAll [SelRx RxNonDigits]))
   = [(VReqHeaders, str "123"%string, str "v2"%string)].
 Proof. split; reflexivity. Qed.
+
+(* a later target of the SAME link reads the earlier targets' last match:
+   SecRule ARGS_GET|MATCHED_VAR "@streq x" on ?a=x reports two matched data *)
+Example same_link_matched_var :
+  link_matches csem ord_id
+    (build1 (mk_request [(str "a"%string, str "x"%string)] [] [] [] (str "/?a=x"%string) (str "GET"%string) (str "a=x"%string)))
+    (mk_link [TPos false VArgsGet SelAll; TPos false VMatchedVar SelAll] (LRule false (mk_op OpStreq (str "x"%string))) [] false)
+  = [(VArgsGet, str "a"%string, str "x"%string); (VMatchedVar, [], str "x"%string)].
+Proof. reflexivity. Qed.
